@@ -194,6 +194,132 @@ SPECIALS = [
 ]
 
 
+# ---- the run-time matrix: every failing instruction kind inside every enclosing construct, under every undefined mode ----
+MORE_CONSTRUCTS = [
+    ("after-ns-set", ["{% set ns = namespace(v=0) %}\n{% set ns.v = 1 %}\nx\n@\ny"]),
+    ("after-ns-set-in-loop", ["{% set ns = namespace(v=0) %}{% for x in seq %}\n{% set ns.v = x %}\n@\n{% endfor %}"]),
+    ("call-block-args", ["{% macro m(a) %}[{{ caller() }}]{% endmacro %}\nq\n{% call m(seq|length) %}\nz\n@\n{% endcall %}"]),
+    ("call-block-params", ["{% macro m() %}{{ caller(1) }}{% endmacro %}\n{% call(p) m() %}\n{{ p }}\n@\n{% endcall %}"]),
+    ("call-block-after-stmt", ["{% macro m() %}{{ caller() }}{% endmacro %}\n\n{% call m() %}\n{% set w = seq|length %}{{ w }}\n@\n{% endcall %}\nz"]),
+    ("ns-in-include", ["a\n{% include 't1' %}", "{% set ns = namespace() %}{% set ns.q = 2 %}\n\n@\n"]),
+    ("ns-in-macro", ["{% macro m() %}{% set ns = namespace() %}\n{% set ns.q = 2 %}\n@\n{% endmacro %}\n{{ m() }}"]),
+    ("ns-in-child-block", ["{% extends 't1' %}\n{% block b %}{% set ns = namespace() %}\n{% set ns.q = 1 %}\n\n@\n{% endblock %}", "p\n{% block b %}{% endblock %}"]),
+    ("call-in-imported-macro", ["{% from 't1' import outer %}\n{{ outer() }}", "{% macro inner() %}{{ caller() }}{% endmacro %}\n{% macro outer() %}\n{% call inner() %}\n@\n{% endcall %}{% endmacro %}"]),
+    ("with-in-for-in-setblock", ["{% set cap %}{% for x in seq %}{% with y = x %}\n@\n{% endwith %}{% endfor %}{% endset %}\n{{ cap }}"]),
+]
+STMT_PLANTS = [
+    "{% autoescape cfg.mode %}x{% endautoescape %}", "{% set f = not cfg.missing %}", "{% set f = 1 if cfg.missing %}", "{% set f = 1 if cfg.missing else 2 %}",
+    "{% include cfg.mode %}", "{% include one %}", "{% include [cfg.mode, 'nope'] %}", "{% for q in one %}{% endfor %}", "{% for a, b in seq %}{% endfor %}",
+    "{% set a, b = one %}", "{% for q in cfg.missing %}{% endfor %}", "{% do nofunc() %}", "{% do one // zero %}", "{% set ns.v = one // zero %}",
+    "{% set ns.v = cfg.missing.x %}", "{% set nons.v = 1 %}", "{% with q = one // zero %}{% endwith %}", "{% if cfg.missing %}{% endif %}",
+    "{% if not cfg.missing.deep %}{% endif %}", "{% filter nofilter %}x{% endfilter %}", "{% set q | nofilter %}x{% endset %}", "{% call nomacro() %}{% endcall %}",
+    "{% from cfg.mode import x %}", "{% import cfg.mode as x %}", "{{ cfg.missing }}", "{% for q in seq if q // zero %}{% endfor %}",
+]
+EXPR_FAILS = [
+    # chained comparisons, failing at every link position
+    "one in zero == 1", "1 == one in zero", "1 < 2 in one", "1 < one in zero < 3", "0 < 1 < (one in zero)", "1 < cfg.missing < 3", "cfg.missing < 1 < 3",
+    "1 < 2 < cfg.missing", "1 < 2 == cfg.missing.x", "one not in zero != 2", "1 <= one >= cfg.missing != 4", "one in zero",
+    # operators
+    "one + s", "s - 1", "s * s", "one / s", "one // zero", "one % zero", "s ** 2", "-s", "one ~ nofunc()", "not cfg.missing.x", "cfg.missing and 1", "zero or cfg.missing.x",
+    # attribute / item access
+    "seq[cfg.missing.x]", "cfg.missing.a.b", "m.a.b.c", "one.x.y", "seq[one // zero]", "seq[0:one // zero]",
+    # filters, tests, calls
+    "s|nofilter", "s|upper|nofilter|lower", "seq|join(1, 2, 3)", "s is notest", "nofunc()", "s.nomethod()", "range(one // zero)", "cfg.mode(1)",
+    "seq|map('nofilter')|list", "s|default(one // zero)", "one is divisibleby(cfg.missing.x)",
+    # literals and conditionals
+    "{'a': one // zero}", "[1, one // zero][0]", "(1, cfg.missing.x)", "one if cfg.missing.x else 2", "(one // zero) if one else 2",
+]
+STMT_WRAPS = ["{{ # }}", "{% set v = # %}", "{% if # %}y{% endif %}", "{{ [1, #] }}", "{{ s ~ (#) }}", "{% with q = # %}{{ q }}{% endwith %}", "{{ range(#) }}",
+              "{% for q in [#] %}{{ q }}{% endfor %}", "{% do # %}", "{% set ns.v = # %}", "{{ (#)|string }}", "{% autoescape # %}x{% endautoescape %}", "{% include # %}"]
+
+
+def build_matrix_groups(chk):
+    rng = chk.rng
+    constructs = CONSTRUCTS + MORE_CONSTRUCTS
+    combos = []
+    # statement-level plants: the full cross product with the constructs and the undefined modes, always
+    for cname, tpls in constructs:
+        for pt in STMT_PLANTS:
+            for um in range(4):
+                combos.append((cname, tpls, pt, um))
+    ex = [(cname, tpls, w.replace("#", e), um) for cname, tpls in constructs for e in EXPR_FAILS for w in STMT_WRAPS for um in range(4)]
+    want = 40000 if chk.thorough else 2600
+    step = max(1, len(ex) // want)
+    combos += ex[rng.below(step)::step]
+    groups = []
+    for cname, tpls, ptext, um in combos:
+        which = [i for i, t in enumerate(tpls) if "@" in t][0]
+        t = tpls[which]
+        at = t.index("@")
+        pre, post = t[:at], t[at + 1:]
+        pline = 1 + pre.count("\n")
+
+        def mk(segs):
+            ts = [[(1, x)] for x in tpls]
+            ts[which] = segs
+            return ts
+        variants = [{"n": 0, "h": 0, "pb": 0, "hb": 0, "at": 0, "tpls": mk([(1, pre + ptext + post)])}]
+        nl = rng.choice([1, 2, 17])
+        pad = rng.choice(["x\n", "p€d é\n", "\n"])
+        variants.append({"n": nl, "h": 0, "pb": nl * blen(pad), "hb": 0, "at": blen(pre), "where": "plant", "pad": pad,
+                         "tpls": mk([(1, pre), (nl, pad), (1, ptext + post)])})
+        if rng.chance(1, 3):
+            nl = rng.choice([1, 3])
+            variants.append({"n": nl, "h": 0, "pb": nl * 2, "hb": 0, "at": 0, "where": "top", "pad": "x\n", "tpls": mk([(nl, "x\n"), (1, pre + ptext + post)])})
+        api = rng.choice([0, 1] + ([2, 3] if len(tpls) == 1 else []))
+        groups.append({"family": "runtime", "matrix": True, "construct": cname, "plant": ptext, "which": which, "pline": pline, "pend": pline, "pstart": pline,
+                       "pkind": 0, "flags": (um << 7) | (api << 4) | (rng.choice(WS_ALL) if rng.chance(1, 4) else 0), "variants": variants})
+    return groups
+
+
+# ---- marker templates: every identifier is unique, so an instruction that carries one names the statement that produced it ----
+MARK_STMTS = ["{{ U }}", "{{ U.attr|upper }}", "{% set U = not U.missing %}", "{% set U = 1 if U.x %}", "{% autoescape U.mode %}x{% endautoescape %}",
+              "{% if U %}{{ U }}{% endif %}", "{% for U in U %}{{ U }}{% endfor %}", "{% set ns.U = U %}", "{{ U(U, k=U) }}", "{{ U is defined }}",
+              "{% with U = U %}{{ U }}{% endwith %}", "{% do U(U) %}", "{{ U < U < U }}", "{{ U if U else U }}", "{% include U %}", "{{ U[U] ~ U }}",
+              "{{ U|default(U) }}", "{% set U, U = U %}", "{{ not U }}", "{{ -U + U * U }}", "{{ U.U(U) }}", "{% set U = U in U == U %}"]
+MARK_ENCLOSERS = [("{% call U() %}", "{% endcall %}"), ("{% call(U) U(U) %}", "{% endcall %}"), ("{% macro U(U) %}", "{% endmacro %}"), ("{% for U in U %}", "{% endfor %}"),
+                  ("{% if U %}", "{% endif %}"), ("{% with U = U %}", "{% endwith %}"), ("{% set U %}", "{% endset %}"), ("{% filter upper %}", "{% endfilter %}"),
+                  ("{% autoescape true %}", "{% endautoescape %}"), ("{% block U %}", "{% endblock %}")]
+
+
+def build_marker_templates(chk):
+    """-> [(text, {line: (lo, hi)})]: the lines within which an instruction naming an identifier of that line must be recorded"""
+    rng = chk.rng
+    out = []
+    for _ in range(400 if chk.thorough else 60):
+        counter = [0]
+        lines = []       # (text, closes_index or None)
+        spans = {}       # index of an opening line -> index of its closing line
+
+        def uniq(tpl):
+            while "U" in tpl:
+                counter[0] += 1
+                tpl = tpl.replace("U", "\0%d\0" % counter[0], 1)
+            return tpl.replace("\0", "uq", 1) if False else "".join(("uq%sa" % part) if i % 2 else part for i, part in enumerate(tpl.split("\0")))
+
+        def body(depth):
+            for _ in range(1 + rng.below(3)):
+                w = rng.below(10)
+                if depth < 3 and w < 4:
+                    op, cl = rng.choice(MARK_ENCLOSERS)
+                    if op.startswith("{% block") and depth > 0:
+                        op, cl = MARK_ENCLOSERS[0]
+                    i = len(lines)
+                    lines.append(uniq(op))
+                    body(depth + 1)
+                    spans[i] = len(lines)
+                    lines.append(cl)
+                elif w < 5:
+                    lines.append(uniq("{% set ns.U = U %}"))
+                else:
+                    lines.append(uniq(rng.choice(MARK_STMTS)))
+        body(0)
+        text = "\n".join(lines)
+        iv = {i + 1: (i + 1, spans.get(i, i) + 1) for i in range(len(lines))}
+        out.append((text, iv))
+    return out
+
+
 def build_runtime_groups(chk):
     groups = []
     rng = chk.rng
@@ -266,7 +392,7 @@ def build_fuel_groups(chk):
     top = 90 if chk.thorough else 45
     for ti, tpls in enumerate(FUEL_TPLS):
         for k in range(1, top + 1):
-            groups.append({"family": "fuel", "construct": "fuel-tpl-%d" % ti, "plant": "fuel=%d" % (k - 1), "which": 0, "flags": k << 8,
+            groups.append({"family": "fuel", "construct": "fuel-tpl-%d" % ti, "plant": "fuel=%d" % (k - 1), "which": 0, "flags": k << 12,
                            "variants": [{"n": 0, "h": 0, "pb": 0, "hb": 0, "at": 0, "tpls": [[(1, x)] for x in tpls]}]})
     return groups
 
@@ -518,6 +644,8 @@ def invariants(res, what):
             located = e["name"] != -1 or e["line"] != 0
             if k == 0 and (e["name"] < 0 or e["line"] < 1):
                 bad.append(we + ": the returned error does not name a template and a line (name=%d line=%d)" % (e["name"], e["line"]))
+            if k > 0 and (e["name"] < 0 or e["line"] < 1):
+                bad.append(we + ": a cause in the chain of the returned error is not located (name=%d line=%d)" % (e["name"], e["line"]))
             if located and e["name"] >= 0 and not (1 <= e["line"] <= e["nlines"]):
                 bad.append(we + ": line %d outside the %d lines of t%d" % (e["line"], e["nlines"], e["name"]))
             if e["rtag"] == 1 and e["rok"] == 0:
@@ -555,7 +683,8 @@ def check_group(g, outs):
     # planted run-time error: the root cause is reported in the planted template at the planted line
     if g["family"] == "runtime":
         if bstage == 0 or not berrs:
-            fails.append(("the planted failure produced no error", 0))
+            if not g.get("matrix"):
+                fails.append(("the planted failure produced no error", 0))
         else:
             root = berrs[-1]
             # (the kind of the root cause is not part of the property: e.g. an unknown function inside a macro
@@ -645,7 +774,7 @@ def main():
         else:
             groups, tokcases, tabcases = [], [], [rp["case"]]
     else:
-        groups = (build_syntax_groups(chk) + build_eoi_groups(chk) + build_literal_groups(chk) + build_runtime_groups(chk) + build_lineending_groups(chk)
+        groups = (build_syntax_groups(chk) + build_eoi_groups(chk) + build_literal_groups(chk) + build_runtime_groups(chk) + build_matrix_groups(chk) + build_lineending_groups(chk)
                   + build_expr_groups(chk) + build_fuel_groups(chk))
         tabcases = build_table_cases(chk)
         tokcases = None
@@ -786,8 +915,16 @@ def main():
                     seen3.add(tuple(c)); stat_cases.append(c); stat_meta.append((gi, vi, ti))
     elif rp.get("case", [9])[0] == 3:
         stat_cases, stat_meta = [rp["case"]], [(0, 0, 0)]
+    marker_iv = {}
+    if not chk.replay:
+        for text, iv in build_marker_templates(chk):
+            marker_iv[len(stat_cases)] = iv
+            stat_cases.append([3, 0] + enc_src([(1, text)])); stat_meta.append((-1, 0, 0))
+    elif "marker_intervals" in rp:
+        marker_iv[0] = {int(k): tuple(v) for k, v in rp["marker_intervals"].items()}
     stat = {rel: prun([bin_path("c14", rel)], stat_cases) for rel in (False, True)}
     stat_bad = []
+    marker_instr = 0
     stat_instr = 0
     for i, c in enumerate(stat_cases):
         for rel in (False, True):
@@ -801,7 +938,7 @@ def main():
             if rel is False:
                 stat_instr += n
             for k in range(n):
-                ltag, line, stag, sl, so, eo, ok = o[3 + 7 * k: 10 + 7 * k]
+                mline, ltag, line, stag, sl, so, eo, ok = o[3 + 8 * k: 11 + 8 * k]
                 # line 0 = "no line" (Error::line() maps it to None).  The BeginCapture/PushWith instructions of an
                 # {% import %} that is the first statement carry it; they cannot fail, so no returned error shows it.
                 if ltag == 1 and line != 0 and not (1 <= line <= nl):
@@ -810,6 +947,26 @@ def main():
                     stat_bad.append((i, rel, "instruction %d: span %d..%d (line %d) is not a valid slice starting on that line" % (k, so, eo, sl))); break
                 if stag == 1 and (ltag != 1 or line != sl):
                     stat_bad.append((i, rel, "instruction %d: line %s but its span starts on line %d" % (k, line if ltag else None, sl))); break
+            if i in marker_iv:
+                # every instruction is recorded within the source lines of the statement that produced it: an instruction that
+                # carries a unique identifier of line L lies within the lines of the statement written on line L, and so does
+                # an instruction between two instructions of one single-line statement
+                iv = marker_iv[i]
+                recs = [o[3 + 8 * k: 11 + 8 * k] for k in range(n)]
+                marked = [(k, r[0]) for k, r in enumerate(recs) if r[0] > 0]
+                marker_instr += len(marked) if rel is False else 0
+                for k, ml in marked:
+                    lo, hi = iv.get(ml, (ml, ml))
+                    if not (recs[k][1] == 1 and lo <= recs[k][2] <= hi):
+                        stat_bad.append((i, rel, "instruction %d carries an identifier of the statement on line %d (lines %d..%d) but is recorded on line %s"
+                                         % (k, ml, lo, hi, recs[k][2] if recs[k][1] else None))); break
+                else:
+                    for (k1, m1), (k2, m2) in zip(marked, marked[1:]):
+                        if m1 == m2 and iv.get(m1, (m1, m1))[0] == iv.get(m1, (m1, m1))[1]:
+                            badk = [k for k in range(k1 + 1, k2) if not (recs[k][1] == 1 and recs[k][2] == m1)]
+                            if badk:
+                                stat_bad.append((i, rel, "instruction %d lies between two instructions of the one-line statement on line %d but is recorded on line %s"
+                                                 % (badk[0], m1, recs[badk[0]][2] if recs[badk[0]][1] else None))); break
         if stat[False][i] != stat[True][i]:
             stat_bad.append((i, True, "debug and release builds compile different location tables"))
 
@@ -851,7 +1008,7 @@ def main():
     chk.cov["tokenizer"] = {"cases": len(tokcases), "outside_modelled_fragment": unsupported, "impl_vs_model_disagreements": len(tok_mism),
                             "spec_failures_on_impl_spans": len(tok_spec_fail)}
     chk.cov["tables"] = {"cases": len(tabcases), "impl_vs_model_disagreements": len(tab_mism), "impl_vs_spec": len(tab_bad), "model_vs_spec": len(tab_thm)}
-    chk.cov["compiled_tables"] = {"templates": len(stat_cases), "instructions_checked": stat_instr, "failures": len(stat_bad)}
+    chk.cov["compiled_tables"] = {"templates": len(stat_cases), "instructions_checked": stat_instr, "marker_templates": len(marker_iv), "instructions_naming_their_statement": marker_instr, "failures": len(stat_bad)}
     chk.cov["kernel_crosscheck"] = {"cases": kern_n, "agree": kern_ok}
     if groups:
         chk.cov["samples"] = [describe_group(groups[i], min(1, len(groups[i]["variants"]) - 1)) for i in (0, len(groups) // 2, len(groups) - 1)]
@@ -893,6 +1050,7 @@ def main():
                       {"case": tabcases[i], "profile": "release" if rel else "debug", "implementation": tab["impl"][rel][i], "spec": tab["spec"][i]})
     for i, rel, what in stat_bad[:3]:
         chk.violation("compiled location table: " + what, {"case": stat_cases[i], "source": text_of_case(stat_cases[i]), "profile": "release" if rel else "debug",
+                                                           **({"marker_intervals": marker_iv[i]} if i in marker_iv else {}),
                                                            "how": "./check C14 --replay <this file>"})
     for gi, vi, l in copy_fail[:3]:
         chk.violation("a syntax error is located at a span the tokenizer never produced", {"group": groups[gi], "failing_variant": vi, "reported": l,
